@@ -75,9 +75,17 @@ def run_empty(ctx):
             ctx.violation(f"Generator._get_file failed on a rendered text: {o['error']}", {"empty_case": c})
             bad += 1
             continue
-        # direct oracle (C11: empty modules are not emitted, everything else is, package markers always)
-        want = has or marker
-        if o["emitted"] != want:
+        # direct oracle (C11: empty modules are not emitted; package markers and every text with a statement are).  Names that
+        # merely END like a marker (my__init__.py, xpy.typed) and statement-less non-Python files get no verdict here: the
+        # property does not speak about them (the T2 comparison below still pins what the code does with them).
+        base = c["fn"].rsplit("/", 1)[-1]
+        if base in ("__init__.py", "py.typed") or has:
+            want = True
+        elif c["fn"].endswith(".py") and not marker:
+            want = False
+        else:
+            want = None
+        if want is not None and o["emitted"] != want:
             ctx.violation(f"file {c['fn']!r} with {'a statement' if has else 'no statement'} (text {c['raw'][:60]!r}): "
                           f"emitted={o['emitted']}, the property says {want}", {"empty_case": c})
             bad += 1
